@@ -162,6 +162,74 @@ def generate(rng, tier):
         addx(["51"], ["51"], idx)
     addx(["63"], ["68"]); addx(["51", "63"], ["68"]); addx(["0501"], ["51"]); addx(["51"], ["0501"]); addx([], []); addx(["51", "52"], ["93"])
 
+    # 3c. CHECKSIG family actually reached: syntactically valid signatures (DER + every kind of flag byte) and public keys,
+    #     OP_CODESEPARATOR at every position including inside taken / untaken IF / ELSE branches, unlocking scripts of
+    #     0..3 pushes.  Signatures need not verify; required: no panic, stepping = run, stacks kept after an error.
+    addsafe = lambda u, l, nout=1, i=0: cases.append(("interp.txsafe", [S(u) if u else "", S(l) if l else "", str(i), str(nout)]))
+    GX = "79be667ef9dcbbac55a06295ce870b07029bfcdb2dce28d959f2815b16f81798"
+    GY = "483ada7726a3c4655da4fbfc0e1108a8fd17b448a68554199c47d08ffb10d4b8"
+    pks = ["02" + GX, "04" + GX + GY, "03" + GX]
+    def sig(flag, long=False):
+        der = ("3044" + "0220" + GX + "0220" + "11" * 32) if long else "3006020101020101"
+        return der + "%02x" % flag
+    flags = [0x01, 0x02, 0x03, 0x41, 0x42, 0x43, 0x81, 0x83, 0xc1, 0xc2, 0xc3]
+    def with_sep(tokens):
+        yield tokens
+        for pos in range(len(tokens) + 1):
+            yield tokens[:pos] + ["ab"] + tokens[pos:]
+        yield ["ab"] + tokens + ["ab"]
+    long_branch = ["51"] * 5 + ["75"] * 5
+    lock_templates = []
+    for o in ("ac", "ad"):
+        tail = [o] if o == "ac" else [o, "51"]
+        lock_templates += [tail, ["51", "63", "61", "68"] + tail, ["00", "63", "61", "68"] + tail,
+                           ["51", "63", "61", "67", "61", "68"] + tail, ["00", "63", "61", "67", "61", "68"] + tail,
+                           ["51", "63"] + long_branch + ["68"] + tail, ["00", "64"] + long_branch + ["67", "61", "68"] + tail,
+                           ["51", "63", "51", "63", "61", "68", "68"] + tail, ["51", "63"] + tail + ["67", "61", "68"],
+                           ["00", "63", "61", "67"] + tail + ["68"]]
+    fi = 0
+    for lt in lock_templates:
+        for l in with_sep(lt):
+            fl = flags[fi % len(flags)]; fi += 1
+            pk = pks[fi % len(pks)]
+            unlocks = [[], [push(sig(fl))], [push(sig(fl)), push(pk)], [push("07"), push(sig(fl, True)), push(pk)]]
+            for u in (unlocks if tier == "thorough" or fi % 2 == 0 else unlocks[2:]):
+                addsafe(u, l, nout=fi % 2)
+    # the separator in the unlocking script, inside a taken conditional there, and a conditional opened in the unlocking script
+    for fl in flags:
+        for pk in pks[:2]:
+            addsafe(["ab", push(sig(fl)), push(pk)], ["ac"]); addsafe([push(sig(fl)), "ab", push(pk), "ab"], ["ab", "ac"])
+            addsafe(["51", "63", "ab", push(sig(fl)), "68", push(pk)], ["ac"], nout=0)
+            addsafe([push(sig(fl)), push(pk)], ["76", "ab", "75", "ac"]); addsafe([push(sig(fl, True)), push(pk)], ["ac"], nout=2)
+            addsafe([push(sig(fl)), push(pk)], ["ac", "ab", "51"]); addsafe([push(pk), push(sig(fl))], ["ac"])
+    addsafe([push("01"), push("01")] + ["51"] * 6, ["63", "51", "51", "51", "51", "ab", "68", "ac"])
+    addsafe(["51"] * 6, ["63", "51", "51", "51", "51", "ab", "68", push(sig(1)), push(pks[0]), "ac"])
+    # multisig: m-of-n shapes with real-looking data, separators at every position, missing dummy, two different flags
+    ms_templates = []
+    for o in ("ae", "af"):
+        tail = [o] if o == "ae" else [o, "51"]
+        for n in (1, 2, 3):
+            keys = [push(pks[k % 3]) for k in range(n)]
+            for m in range(1, n + 1):
+                ms_templates.append((m, [op(80 + m)] + keys + [op(80 + n)] + tail))
+                ms_templates.append((m, ["51", "63", op(80 + m)] + keys + [op(80 + n)] + tail[:1] + ["68"] + tail[1:]))
+    for m, lt in ms_templates:
+        for l in with_sep(lt):
+            fi += 1
+            sigs = [push(sig(flags[(fi + k) % len(flags)], k % 2 == 1)) for k in range(m)]
+            unlocks = [["00"] + sigs, sigs, ["00"] + sigs[:-1], []]
+            for u in (unlocks if tier == "thorough" or fi % 3 == 0 else unlocks[:1]):
+                addsafe(u, l, nout=fi % 2)
+    for nk, ns in [(0, 0), (1, 0), (0, 1), (2, 3), (17, 1), (-1, 1), (1, -1), (2 ** 31 - 1, 1), (1, 2 ** 31 - 1), (3, 3)]:
+        addsafe(["00", push(sig(1)), push(sig(0x41))], [push(num(ns)), push(pks[0]), push(pks[1]), push(num(nk)), "ae"])
+    addsafe(["51"], ["51"], i=1); addsafe([push(sig(1)), push(pks[0])], ["ac"], i=2 ** 32)
+    # IF / NOTIF condition operands of every width 0..33: error and success paths, second next()
+    for wd in range(0, 34):
+        for c in ["00" * wd, "00" * max(0, wd - 1) + "80" * min(1, wd), "00" * max(0, wd - 1) + "01" * min(1, wd), "01" * min(1, wd) + "00" * max(0, wd - 1)]:
+            for code in ("63", "64", "65", "66"):
+                add([push(c), code, "55", "67", op(147), "68"])
+                add([push(c), code, op(147), "67", "56", "68", op(147)])
+
     # 4. random programs, random byte strings
     nprog = 300 if tier == "quick" else 4000
     for i in range(nprog):
